@@ -118,8 +118,20 @@ Definition double_rounded_single (lit : list N) : bres :=
   end.
 
 (* ---- shortest round trip --------------------------------------------------------------------- *)
+(* the exponent window in which rne_dec expands the decimal exactly (outside it answers by the shortcut) *)
+Definition win (m e : Z) : bool := (-400 <=? e + ndig m) && (e + ndig m <=? 400).
+
+(* does m*10^e (m >= 1) round to the float k ?  Some true / Some false are verified answers, None = no answer
+   (self-check failed or outside the window) *)
+Definition rt3 (f : bfmt) (k m e : Z) : option bool :=
+  if (1 <=? m) && win m e then
+    match rne_dec f m e with RFin k' => Some (k' =? k) | RInf => Some false | RBad => None end
+  else None.
+
 Definition rounds_to (f : bfmt) (k m e : Z) : bool :=
-  match rne_dec f m e with RFin k' => k' =? k | _ => false end.
+  match rt3 f k m e with Some true => true | _ => false end.
+Definition rounds_not (f : bfmt) (k m e : Z) : bool :=
+  match rt3 f k m e with Some false => true | _ => false end.
 
 (* |m*10^e - k*2^emin| as a fraction *)
 Definition dist_num (f : bfmt) (k m e : Z) : Z * Z :=
@@ -130,22 +142,28 @@ Definition closer_eq (f : bfmt) (k m e m' e' : Z) : bool :=
   let '(b, d2) := dist_num f k m' e' in
   a * d2 <=? b * d1.
 
+(* a neighbour either provably does not round to k, or it does and is not nearer to k than (m, e) *)
+Definition neighbour_ok (f : bfmt) (k m e m' e' : Z) : bool :=
+  match rt3 f k m' e' with
+  | Some false => true
+  | Some true => closer_eq f k m e m' e'
+  | None => false
+  end.
+
 (* [abits]: magnitude bits of a finite non-zero float; (sig, exp): the printed decimal, sig without trailing zero.
    The decimals with at most n = ndig sig digits form a discrete set; the neighbours of sig*10^exp in it are
-   (sig-1)*10^exp (or 9*10^(exp-1) when sig = 1) and (sig+1)*10^exp. *)
+   (sig-1)*10^exp (or 9*10^(exp-1) when sig = 1) and (sig+1)*10^exp; the decimals with fewer digits that enclose
+   it are (sig/10)*10^(exp+1) and (sig/10+1)*10^(exp+1). *)
 Definition shortest_check (f : bfmt) (abits sig exp : Z) : bool :=
   match k_of_bits f abits with
   | None => false
   | Some k =>
       (0 <? k) && (0 <? sig) && negb (sig mod 10 =? 0) &&
       rounds_to f k sig exp &&
-      (* nothing shorter: the two decimals with one digit less that enclose sig*10^exp *)
       (if sig <? 10 then true
-       else negb (rounds_to f k (sig / 10) (exp + 1)) && negb (rounds_to f k (sig / 10 + 1) (exp + 1))) &&
-      (* closest of that length *)
-      (let '(ml, el) := if sig =? 1 then (9, exp - 1) else (sig - 1, exp) in
-       if rounds_to f k ml el then closer_eq f k sig exp ml el else true) &&
-      (if rounds_to f k (sig + 1) exp then closer_eq f k sig exp (sig + 1) exp else true)
+       else rounds_not f k (sig / 10) (exp + 1) && rounds_not f k (sig / 10 + 1) (exp + 1)) &&
+      (let '(ml, el) := if sig =? 1 then (9, exp - 1) else (sig - 1, exp) in neighbour_ok f k sig exp ml el) &&
+      neighbour_ok f k sig exp (sig + 1) exp
   end.
 
 Definition shortest_roundtrip_check := shortest_check f64.
